@@ -5,7 +5,7 @@ import re
 from fractions import Fraction
 
 import cssread
-from vlib import Check, RunnerPool, compile_job, driver, log, known_findings
+from vlib import Check, RunnerPool, compile_job, driver, log
 
 # --------------------------------------------------------------------------------------------
 # value trees, their Sass spelling and their driver encoding
@@ -192,6 +192,17 @@ def universe():
     add("25.4mm", num("25.4", "mm"))
     add("72pt", num("72", "pt"))
     add("6pc", num("6", "pc"))
+    # pairs that differ by < 1e-11 at one unit's own scale but by > 1e-11 in the canonical unit, and
+    # the reverse (what K1 / the old not_equals got wrong): every one is compared with 1in, 96px, …
+    add("96.0000000003px", num("96.0000000003", "px"))
+    add("1.000000000003in", num("1.000000000003", "in"))
+    add("2.540000000001cm", num("2.540000000001", "cm"))
+    add("25.40000000001mm", num("25.40000000001", "mm"))
+    add("72.0000000001pt", num("72.0000000001", "pt"))
+    add("1000.000000004ms", num("1000.000000004", "ms"))
+    add("1.000000000004s", num("1.000000000004", "s"))
+    add("0.50000000000001turn", num("0.50000000000001", "turn"))
+    add("0.5000000000001turn", num("0.5000000000001", "turn"))
     add("101.6q", num("101.6", "q"))
     add("1em", num("1", "em"))
     add("1rem", num("1", "rem"))
@@ -455,20 +466,20 @@ def lit_tree(pairs):
 
 # --------------------------------------------------------------------------------------------
 
-WITNESSES = [
-    # (tag, description, [(expression, expected-by-the-finding)])
-    ("K1", "1.000000000004in == 1in, 1in == 96px, but 1.000000000004in != 96px",
-     [("1.000000000004in == 1in", "true"), ("1in == 96px", "true"), ("1.000000000004in == 96px", "false")]),
-    ("K2", "[1, 2] == $args, $args == (1, 2), but [1, 2] != (1, 2); "
-           "a(1, 2, $k: 1) == (1, 2), (1, 2) == a(1, 2), but a(1, 2, $k: 1) != a(1, 2)",
-     [("[1, 2] == a(1, 2)", "true"), ("a(1, 2) == (1, 2)", "true"), ("[1, 2] == (1, 2)", "false"),
-      ("a(1, 2, $k: 1) == (1, 2)", "true"), ("(1, 2) == a(1, 2)", "true"), ("a(1, 2, $k: 1) == a(1, 2)", "false")]),
-    ("K4", "map-remove((1in: x), 2.54000000001cm) is () although 1in != 2.54000000001cm; "
-           "map-remove(((1, 2): x), $args) keeps the key although (1, 2) == $args",
-     [("1in == 2.54000000001cm", "false"), ("length(map-remove((1in: x), 2.54000000001cm))", "0"),
-      ("(1, 2) == a(1, 2)", "true"), ("length(map-remove(((1, 2): x), a(1, 2)))", "1")]),
-]
-FIXED_WITNESSES = [
+# Inputs of the findings K1, K2, K4 (C09) and D6, D20 — all repaired in /repo — with the answers the
+# property demands.  Regression cases: run first on every run; a wrong answer is a plain violation.
+REGRESSIONS = [
+    ("K1", [("1.000000000004in == 1in", "false"), ("1in == 96px", "true"), ("1.000000000004in == 96px", "false"),
+            ("1000.000000004ms == 1000ms", "true"), ("1000ms == 1s", "true"), ("1000.000000004ms == 1s", "true")]),
+    ("K2", [("[1, 2] == a(1, 2)", "false"), ("a(1, 2) == [1, 2]", "false"), ("a(1, 2) == (1, 2)", "true"),
+            ("[1, 2] == (1, 2)", "false"), ("a(1, 2, $k: 1) == (1, 2)", "true"), ("(1, 2) == a(1, 2)", "true"),
+            ("a(1, 2, $k: 1) == a(1, 2)", "true"), ("a((1 2)..., (k: 1)...) == a(1, 2)", "true")]),
+    ("K4", [("1in == 2.54000000001cm", "false"), ("length(map-remove((1in: x), 2.54000000001cm))", "1"),
+            ("(1, 2) == a(1, 2)", "true"), ("length(map-remove(((1, 2): x), a(1, 2)))", "0"),
+            ("length(map-remove((1in: x), 96px))", "0")]),
+    ("NE", [("(1, 2) != a(1, 2)", "false"), ("a(1, 2) != (1, 2)", "false"), ("1in != 96.0000000003px", "true"),
+            ("96.0000000003px != 1in", "true"), ("1in != 2.54000000001cm", "true"), ("2.54000000001cm != 1in", "true"),
+            ("1in != 96px", "false"), ("a != \"a\"", "false"), ("[1, 2] != a(1, 2)", "true")]),
     ("D6", [("a(1, 2) == (1, 2)", "true"), ("(1, 2) == a(1, 2)", "true")]),
     ("D20", [("1in == 2.54000000001cm", "false"), ("2.54000000001cm == 1in", "false"),
              ("96px == 2.54000000001cm", "false")]),
@@ -477,17 +488,9 @@ FIXED_WITNESSES = [
 # minimised past failures (ordered pairs of universe spellings): run first on every run
 CORPUS = [("(1, 2)", "a(1, 2)"), ("a(1, 2)", "(1, 2)"), ("1in", "2.54000000001cm"), ("2.54000000001cm", "1in"),
           ("96px", "2.54000000001cm"), ("1.000000000004in", "96px"), ("[1, 2]", "a(1, 2)"), ("()", "a()"),
+          ("1in", "96.0000000003px"), ("96.0000000003px", "1in"), ("1.000000000004in", "1in"),
+          ("a(1, 2, $k: 1)", "a(1, 2)"), ("a(1, 2)", "[1, 2]"), ("1000.000000004ms", "1s"),
           ("()", "map-remove((a: 1), a)"), ("(a: 1, b: 2)", "(b: 2, a: 1)"), ("a", '"a"'), ("red", "#f00")]
-
-
-def tags_for(vals):
-    """class of a violation by the values involved (used only together with `predicted by the
-    as-found model`)"""
-    if any(has_arglist(v) for v in vals):
-        return "K2"
-    if any(has_noncanon(v) for v in vals):
-        return "K1"
-    return None
 
 
 def run(tier, seed):
@@ -525,34 +528,22 @@ def run(tier, seed):
     index_of = {s: i for i, (s, _) in enumerate(U)}
     failing = []   # (case_text, payload, tags)
 
-    # ---- (0) witnesses of the known findings, replayed on every run ---------------------------
+    # ---- (0) regression cases (inputs of the repaired findings), run first ----------------------
     wit_bodies, wit_ix = [], []
-    for tag, desc, exprs in WITNESSES + [(t, "", e) for t, e in FIXED_WITNESSES]:
+    for tag, exprs in REGRESSIONS:
         for k, (e, _) in enumerate(exprs):
             wit_ix.append((tag, k))
             wit_bodies.append(f"v: {e}")
     wres = run_batched(pool, PRELUDE, wit_bodies)
-    wgot = {}
     for (tag, k), i in zip(wit_ix, range(len(wit_bodies))):
         r = wres[i]
-        wgot[(tag, k)] = r.get("v") if isinstance(r, dict) else str(r)
-    known_ids = {k["id"]: k for k in known_findings("C09")}
-    for tag, desc, exprs in WITNESSES:
-        still = all(wgot[(tag, k)] == want for k, (_, want) in enumerate(exprs))
-        ck.hist(f"witness:{tag}:{'still-fails' if still else 'no-longer-fails'}")
-        if still:
-            ck.impl_violation("witness " + tag, {"witness": tag, "what": desc,
-                                                 "observed": {e: wgot[(tag, k)] for k, (e, _) in enumerate(exprs)}},
-                              tags=[tag])
-        else:
-            ck.notes.append(f"known finding {tag} no longer reproduces on its witness (entry is stale): "
-                            + json.dumps({e: wgot[(tag, k)] for k, (e, _) in enumerate(exprs)}))
-    for tag, exprs in FIXED_WITNESSES:
-        okk = all(wgot[(tag, k)] == want for k, (_, want) in enumerate(exprs))
-        ck.hist(f"fixed-witness:{tag}:{'stays-fixed' if okk else 'REGRESSED'}")
-        if not okk:
-            failing.append((f"fixed witness {tag}", {"witness": tag, "observed":
-                            {e: wgot[(tag, k)] for k, (e, _) in enumerate(exprs)}}, []))
+        got = r.get("v") if isinstance(r, dict) else str(r)
+        e, want = dict((t, x) for t, x in REGRESSIONS)[tag][k]
+        ck.count(("regression", tag, e), True)
+        ck.hist(f"regression:{tag}:{'ok' if got == want else 'REGRESSED'}")
+        if got != want:
+            failing.append((f"x {{ v: {e} }}", {"regression_of": tag, "expression": e, "impl_observation": got,
+                                                "expected_by_property": want}, []))
 
     log(f"[C09] witnesses done {__import__('time').time()-ck.t0:.0f}s")
     # ---- (1) all ordered pairs -----------------------------------------------------------------
@@ -630,9 +621,7 @@ def run(tier, seed):
         i_obs, m_obs = obs[p]
         case = f"{U[i][0]}  vs  {U[j][0]}"
         clauses = verdict.replace("ok fails ", "").split(",")
-        predicted = [str(x) for x in i_obs] == m_obs
-        cls = tags_for([U[i][1], U[j][1]])
-        tags = ["K4"] if (clauses == ["map-remove"] and predicted and cls) else []
+        tags = []
         ck.hist("pairlaw-fails:" + "+".join(clauses))
         failing.append((case, {"pair": case, "failed_clauses": clauses, "impl_observation": i_obs,
                                "model_observation": m_obs, "expected_by_property":
@@ -659,25 +648,25 @@ def run(tier, seed):
         ck.hist("trans-violations", int(ma.group(3)))
         for s in filter(None, ma.group(2).split(";")):
             i, j = map(int, s.split(","))
-            pred = model_eq[i][j] != model_eq[j][i]
-            cls = tags_for([U[i][1], U[j][1]])
             failing.append((f"{U[i][0]} == {U[j][0]} vs reverse", {"law": "symmetric", "a": U[i][0], "b": U[j][0],
-                            "a==b": impl_eq[i][j], "b==a": impl_eq[j][i]}, [cls] if (pred and cls) else []))
+                            "a==b": impl_eq[i][j], "b==a": impl_eq[j][i]}, []))
         for s in filter(None, ma.group(4).split(";")):
             i, j, k = map(int, s.split(","))
-            pred = model_eq[i][j] and model_eq[j][k] and not model_eq[i][k]
-            cls = tags_for([U[i][1], U[j][1], U[k][1]])
             failing.append((f"{U[i][0]} == {U[j][0]} == {U[k][0]}",
                             {"law": "transitive", "a": U[i][0], "b": U[j][0], "c": U[k][0],
-                             "expected_by_property": "a==b and b==c imply a==c"}, [cls] if (pred and cls) else []))
-    # model matrix must be the same (TIE, already counted per pair) and law-abiding inside the scope
-    scope = [i for i in range(n) if not has_arglist(U[i][1]) and not has_noncanon(U[i][1])]
-    sub = ".".join("".join(b01(impl_eq[i][j]) for j in scope) for i in scope)
-    sdom = "".join(b01(not has_nan(U[i][1])) for i in scope)
-    l3 = driver([f"value laws {len(scope)} {sub} {sdom}"])[0]
-    ck.hist("in-scope-values", len(scope))
-    if l3 != "ok refl:ok symm:ok trans:ok":
-        failing.append(("in-scope sub-universe", {"law_verdict": l3, "values": [U[i][0] for i in scope]}, []))
+                             "expected_by_property": "a==b and b==c imply a==c"}, []))
+    else:
+        failing.append(("law checker", {"driver_answer": l2[:300]}, []))
+    if m and (m.group(2) != "ok" or m.group(3) != "ok") and not (ma and (int(ma.group(1)) or int(ma.group(3)))):
+        failing.append(("law checker", {"driver_answer": l1}, []))
+    # != must be the negation of == on grass's own answers, for every ordered pair (also evaluated
+    # per pair by the Lean predicate `pairAgrees`, clause "ne")
+    impl_ne_bad = [(i, j) for (i, j), (i_obs, _) in obs.items() if (i_obs[1] == "1") == (i_obs[0] == "1")]
+    ck.hist("ne-is-not-negation", len(impl_ne_bad))
+    for i, j in impl_ne_bad[:20]:
+        failing.append((f"x {{ e: {U[i][0]} == {U[j][0]}; n: {U[i][0]} != {U[j][0]} }}",
+                        {"law": "!= negates ==", "a": U[i][0], "b": U[j][0], "a==b": obs[(i, j)][0][0],
+                         "a!=b": obs[(i, j)][0][1]}, []))
 
     log(f"[C09] laws done {__import__('time').time()-ck.t0:.0f}s")
     # ---- (3) sampled / all triples evaluated by grass itself -------------------------------------
@@ -690,7 +679,8 @@ def run(tier, seed):
         for _ in range(10000):
             i, j = ck.rng.choice(eqp)
             triples.append((i, j, ck.rng.randrange(n)))
-    tb = [f"t: ($v{a} == $v{b}) and ($v{b} == $v{c}) and not ($v{a} == $v{c})" for a, b, c in triples]
+    tb = [(f"t: ($v{a} == $v{b}) and ($v{b} == $v{c}) and not ($v{a} == $v{c}); "
+           f"u: ($v{a} != $v{c}) == not ($v{a} == $v{c})") for a, b, c in triples]
     tres = run_batched(pool, head, tb, size=1000, timeout=120)
     for idx, (a, b, c) in enumerate(triples):
         r = tres[idx]
@@ -701,8 +691,10 @@ def run(tier, seed):
             failing.append((f"triple {U[a][0]}, {U[b][0]}, {U[c][0]}",
                             {"what": "== is not a function of its operands (matrix and direct evaluation differ)",
                              "direct": got, "from_matrix": expect}, []))
-        elif got == "true":
-            pass        # already reported through the matrix
+        gu = r.get("u") if isinstance(r, dict) else str(r)
+        if gu != "true":
+            failing.append((f"x {{ e: {U[a][0]} == {U[c][0]}; n: {U[a][0]} != {U[c][0]} }}",
+                            {"law": "!= negates ==", "a": U[a][0], "b": U[c][0], "(a != b) == not (a == b)": gu}, []))
     ck.hist("triples-by-grass", len(triples))
 
     log(f"[C09] triples done {__import__('time').time()-ck.t0:.0f}s")
